@@ -139,6 +139,28 @@ def gen_cases(ctx, E):
         lw, par = law(2)
         cases.append({"kind": "mixed", "elem": "QUAD4+TRI3", "nx": 4, "ny": 3, "L": 2.0, "H": 1.0, "A": A, "b": b, "perm_seed": rng.randrange(10**6),
                       "field_seed": rng.randrange(10**6), "phys": "elastic", "law": lw, "params": par})
+    # LARGE meshes: "to round-off for every mesh" — the size is part of the quantifier (solver paths
+    # may depend on the number of unknowns).  2-D: > 25000 unknowns of the reduced system each.
+    A, b = affine(2)
+    cases.append({"kind": "gmsh", "elem": "TRI3", "dim": 2, "L": 2.0, "H": 1.0, "size": 0.0125, "A": A, "b": b, "large": True,
+                  "perm_seed": rng.randrange(10**6), "field_seed": rng.randrange(10**6), "phys": "elastic", "law": "isotropic",
+                  "params": {"E": rng.uniform(1, 300), "v": rng.uniform(0.0, 0.4), "planeStress": rng.random() < 0.5, "thickness": 1.0}})
+    A, b = affine(2)
+    cases.append({"kind": "gmsh", "elem": "TRI3", "dim": 2, "L": 2.0, "H": 1.0, "size": 0.009, "A": A, "b": b, "large": True,
+                  "perm_seed": rng.randrange(10**6), "field_seed": rng.randrange(10**6), "phys": "thermal", "params": {"k": rng.uniform(0.5, 5), "c": 1.0}})
+    if not quick:
+        A, b = affine(2)
+        cases.append({"kind": "gmsh", "elem": "QUAD4", "dim": 2, "L": 2.0, "H": 1.0, "size": 0.008, "A": A, "b": b, "large": True,
+                      "perm_seed": rng.randrange(10**6), "field_seed": rng.randrange(10**6), "phys": "elastic", "law": "isotropic",
+                      "params": {"E": 210.0, "v": 0.3, "planeStress": True, "thickness": 0.5}})
+        # 3-D, > 50000 unknowns
+        A, b = affine(3)
+        cases.append({"kind": "gmsh", "elem": "TETRA4", "dim": 3, "L": 2.0, "H": 1.0, "D": 1.0, "layers": 20, "size": 0.049, "A": A, "b": b, "large": True,
+                      "perm_seed": rng.randrange(10**6), "field_seed": rng.randrange(10**6), "phys": "elastic", "law": "isotropic",
+                      "params": {"E": 210.0, "v": 0.3}})
+        A, b = affine(3)
+        cases.append({"kind": "gmsh", "elem": "TETRA4", "dim": 3, "L": 2.0, "H": 1.0, "D": 1.0, "layers": 29, "size": 0.0348, "A": A, "b": b, "large": True,
+                      "perm_seed": rng.randrange(10**6), "field_seed": rng.randrange(10**6), "phys": "thermal", "params": {"k": 2.0, "c": 1.0}})
     for et in ("SEG2", "SEG3", "SEG4", "SEG5"):
         for bd in (1, 2, 3):
             for timo in (False, True):
@@ -196,7 +218,7 @@ def run(ctx):
         ctx.violation("impl-run", "the implementation-side harness failed: " + (err.strip().splitlines() or ["?"])[-1][:200], {"stderr": err[-3000:]}, found_input=False)
         return
     results = json.loads(out.split("@@JSON@@")[1])["results"]
-    dist, margins = {}, []
+    dist, margins, sizes = {}, [], []
     for c, r in zip(cases, results):
         n = c["elem"]
         kind = c["kind"]
@@ -208,6 +230,14 @@ def run(ctx):
             ctx.obligation("patch test runs (%s)" % tag, False, r["error"])
             ctx.violation("raises:" + tag, "%s: the patch test raises %s" % (tag, r["error"]), dict(rep, trace=r.get("trace")), True)
             continue
+        if c.get("large"):
+            tag += ":large"
+            nunk = r["n_interior"] * (r["dim"] if c["phys"] == "elastic" else 1)
+            sizes.append(nunk)
+            need = 25000 if r["dim"] == 2 else 50000
+            ctx.obligation("large mesh reaches the intended size (%s)" % tag, nunk > need, "%d unknowns" % nunk)
+            if nunk <= need:
+                ctx.violation("large-mesh-size:" + tag, "generated large mesh has only %d unknowns (> %d intended): the size part of the quantifier is not exercised" % (nunk, need), {"case": c}, found_input=False)
         ctx.note_case(tag if r.get("n_interior", 0) > 0 else None)
         if kind == "beam":
             worst = max(r["err"].values()) / r["scale"]
@@ -232,6 +262,7 @@ def run(ctx):
             ctx.violation("patch:" + tag, "%s (%d nodes, %d interior): linear field not reproduced — %s (relative, tolerance 1e-9)" % (
                 tag, r["Nn"], r["n_interior"], "; ".join("%s %.3e" % x for x in bad)), rep, True)
     ctx.cov["case_kinds"] = dist
+    ctx.cov["unknowns_of_large_cases"] = sizes
     ctx.cov["worst_relative_error"] = max(margins) if margins else None
     ctx.cov["margin_used_above_1e-12"] = sum(1 for m in margins if 1e-12 < m <= TOL)
     ctx.cov["element_types"] = sorted(set(c["elem"] for c in cases))
